@@ -39,6 +39,8 @@ def run_k(ctx, kres):
     mt, ncell = gen2.c13_unwrap_matrix(ctx.seed, sample=180 if ctx.quick else None)
     v += k_suite(ctx, kres, "K13-unwrap-matrix", [Trace("unwrap-matrix", mt)], in_projection, sig_of=sig_of, direct=ksuites.samevalues_direct)
     kres["notes"].append("K13-unwrap-matrix: %d unwrap cells" % ncell)
+    # every symmetric derivation mechanism into DES2 / DES3 / generic / AES keys of exactly fitting lengths, from even-parity material: value and check value by the reference
+    v += k_suite(ctx, kres, "K13-derive-des-matrix", [Trace("derive-des", gen2.c13_derive_des_matrix(ctx.seed))], in_projection, sig_of=sig_of)
     return v
 
 
